@@ -146,7 +146,7 @@ ADDENDA = {
     'C09': ('imported activity traversal rule restricted to parameter fields (C08)', ''),
     'C10': ('imported binding rules of instantiate (C09: IFACE-BIND, IFACE-INST); guard analysis of every caching call of the unconverted path: remembered decisions depend on (function, options) only; imported option equality rules (C20)', ''),
     'C11': ('case-wise evaluation of QN.support_set (HYG-SUPPORT); no removal from scope sets (HYG-SCOPE-GROWS); the root-skipping lambda search is handed the function node', ''),
-    'C13': ('path-wise evaluation of the warning calls of the fallback over failure class / inspection support / negative cache; path-wise values of the positional arguments handed to the converted function; first-match-over-the-full-MRO rule for the defining class; imported negative-cache (C10) and status-stack rules (C16)', ''),
+    'C13': ('path-wise decision of policy rows whose verdict travels through a local; the DISABLED-context exit binds the cache flag to False; path-wise evaluation of the warning calls of the fallback over failure class / inspection support / negative cache; path-wise values of the positional arguments handed to the converted function; first-match-over-the-full-MRO rule for the defining class; imported negative-cache (C10) and status-stack rules (C16)', ''),
     'C14': ('namespace of eval / locals collected from every frame of the function (all-locals); raw-source scan of the run-time library for scope-named locals; expansion of the arguments completing zero-argument super() to the frame\'s __class__ cell and first argument; imported policy-chain rules (C13)', ''),
     'C15': ('same reaching definition for the tokenised text and the text whose lines are paired (paired-lines-of-one-text); module-state rule over every function on the recovery path (SRC-NOSTATE); compiled-pattern substitutions count as context-free edits', ''),
     'C16': ('the wrapper is returned on every path of the status decorators; imported cache-key rule (C10): user-requested and recursive conversions are cached apart', ''),
